@@ -1,5 +1,6 @@
 import FedjaxVerif.Lemmas.Stats
 import FedjaxVerif.Lemmas.Metrics
+import FedjaxVerif.Props.C03
 
 /-!
 # C05 — evaluation is invariant to batching and padding (metric monoid)
@@ -184,6 +185,29 @@ theorem C05_builtin_sum (m : SumMetric)
       = examples.foldl (fun s e => (vecOps m.size sumOps).merge s (m.eval e)) (vecOps m.size sumOps).zero :=
   C05_partition_invariant (vecLawful _ sumLawful) m.eval batches examples hperm
     fun e _ => m.eval_vecValid e
+
+
+/-! ## composition with C03: evaluating over `padded_batch` is independent of the batch geometry -/
+
+/-- **Padded evaluation.** For every lawful statistic, every per-example statistic `f`, every
+dataset `xs`, every batch size `bs ≥ 1`, bucket count `B ≥ 1` and padding row `z` (whatever `f z`
+is): evaluating over the padded batches that `ClientDataset.padded_batch(bs, B)` yields (C03's
+`paddedView`) is the one-by-one merge of the single-example statistics of `xs` — in particular the
+same for every `(bs, B)`. -/
+theorem C05_padded_batch_eval {σ ε : Type} {o : StatOps σ} {V : σ → Prop} (h : Lawful o V)
+    (f : ε → σ) (bs B : Nat) (hbs : 0 < bs) (hB : 0 < B) (z : ε) (xs : List ε)
+    (hv : ∀ e ∈ xs, V (f e)) :
+    ∃ v, Batching.paddedView bs B z xs = some v ∧
+      evalModel o f (v.map fun b => (b.1, some b.2)) = xs.foldl (fun s e => o.merge s (f e)) o.zero := by
+  obtain ⟨v, hv1, hv2⟩ := Batching.C03_padded_unpad bs B hbs hB z xs
+  refine ⟨v, hv1, ?_⟩
+  apply C05_partition_invariant h f _ xs _ hv
+  have : (v.map fun b => ((b.1, some b.2) : List ε × Option (List Bool))).flatMap batchReal
+      = Batching.unpad v := by
+    unfold Batching.unpad
+    rw [List.flatMap_map]
+    rfl
+  rw [this, hv2]
 
 /-! ## non-vacuity -/
 
